@@ -914,3 +914,76 @@ func VerifC15ArrayInput() {
 	out, rerr := r.Invoke(ctx, c15ArrIn{Arr: [2]int{x, 2}})
 	vassert(rerr == nil && out[0] == x && out[1] == 2, "an array-typed input receives the mapped array")
 }
+
+type c15Namer interface{ Name() string }
+type c15NamedStr string
+
+func (s c15NamedStr) Name() string { return string(s) }
+
+type c15Hole struct{ X c15Namer }
+type C15Base struct{ BF string }
+type c15Emb struct {
+	*C15Base
+	Y string
+}
+
+// Declarations the static check cannot fully see through: a target path that continues below a field of an interface
+// type other than any (nothing can be set there), and a field promoted through an embedded pointer to a struct (nil in
+// a fresh target, possibly nil in a source value). Each is rejected at Compile or gives a result / an ordinary error
+// at run time - never a panic.
+func VerifC15OpaqueTargets() {
+	ctx := context.Background()
+	vcfg("fifo", 1)
+	vcfg("selectfirst", 1)
+	x := vsymStr("x")
+	var rerr error
+	switch vchoose("kind", 4) {
+	case 0:
+		wf := NewWorkflow[c15NamedStr, c15Hole]()
+		wf.End().AddInput(START, ToFieldPath(FieldPath{"X", "k"}))
+		r, err := wf.Compile(ctx)
+		if err != nil {
+			vassert(true, "rejected at compile time")
+			return
+		}
+		_, rerr = r.Invoke(ctx, c15NamedStr(x))
+		vassert(rerr != nil, "nothing can be set below a field of a non-empty interface type")
+	case 1: // promoted field on the target side: the embedded pointer of the fresh target is nil
+		wf := NewWorkflow[string, c15Emb]()
+		wf.End().AddInput(START, ToField("BF"))
+		r, err := wf.Compile(ctx)
+		if err != nil {
+			vassert(true, "rejected at compile time")
+			return
+		}
+		var out c15Emb
+		out, rerr = r.Invoke(ctx, x)
+		if rerr == nil {
+			vassert(out.C15Base != nil && out.BF == x, "a promoted target field receives the mapped value")
+		}
+	case 2: // promoted field on the source side, embedded pointer nil
+		wf := NewWorkflow[c15Emb, string]()
+		wf.End().AddInput(START, FromField("BF"))
+		r, err := wf.Compile(ctx)
+		if err != nil {
+			vassert(true, "rejected at compile time")
+			return
+		}
+		_, rerr = r.Invoke(ctx, c15Emb{Y: "y"})
+		vassert(rerr != nil, "a promoted source field behind a nil embedded pointer cannot be read")
+	case 3: // promoted field on the source side, embedded pointer set
+		wf := NewWorkflow[c15Emb, string]()
+		wf.End().AddInput(START, FromField("BF"))
+		r, err := wf.Compile(ctx)
+		if err != nil {
+			vassert(true, "rejected at compile time")
+			return
+		}
+		var out string
+		out, rerr = r.Invoke(ctx, c15Emb{C15Base: &C15Base{BF: x}})
+		vassert(rerr == nil && out == x, "a promoted source field is read through its embedded pointer")
+	}
+	if rerr != nil {
+		vassert(!strings.Contains(rerr.Error(), "panic"), "reported as an ordinary error, not a recovered panic")
+	}
+}
